@@ -1112,8 +1112,6 @@ PROFILES = {
     "nested_assign_nr": dict(lam_depth=3, depth=4, closure_assign=True, escaping=True, rounding=False),
     "statelam": dict(stateful_lambdas=True),
     "modulo": dict(lambdas=False, tuples=False, records=False, modulo=True),
-    "nested": dict(lam_depth=3, depth=4),
-    "nested_assign": dict(lam_depth=3, depth=4, closure_assign=True),
     "tupassign": dict(tuple_assign=True),
     "tupassign_nr": dict(tuple_assign=True, rounding=False),
     "aggr": dict(gen="aggr"),
